@@ -1,6 +1,8 @@
 import Proofs.C12.Commit
 import Proofs.C12.Toy
 import Proofs.E2E.C12
+import Proofs.E2E.C12Cof
+import Proofs.C12.EC
 /-!
 # C12 — taproot outputs commit to exactly their key and script tree (DESIGN.md §3 C12)
 
@@ -11,11 +13,26 @@ Property theorems only.  The model is `Model/C12/Taproot.lean` (a function-by-fu
 Tags, the 33/32 control-block layout, the 0xFE / 1 masks and the depth cap are `Gen.Taproot.*`
 (regenerated from the source each run); CompactSize is the translated `Gen.VarInt.serialize`.
 
-Hypotheses that are not proved here, and are named where used:
-* `L : Lawful o G`  — the operations are those of a group of prime order with x / y-parity / lift_x
-                      maps (that `Btc.EC.ops c` is lawful is property C01's business);
-* `Len32 H`         — digests are 32 bytes;
+Which hypothesis each theorem rests on, and where it is discharged:
+* hash level (T1a, T1b, T3m, T3i, T4, refusals, `output_key_unique`): no group hypothesis at all.
+* T3 `soundness` and the soundness half of `every_leaf_version`: only `LiftEven o` (`lift_x` answers an even-y
+  point) — PROVED of the executed raw-pair arithmetic `Btc.EC.ops C` for every odd field size
+  (`liftEven_ec`), so `soundness_ec` / `soundness_secp256k1` below are about what the driver runs, with
+  `Len32 taggedHash` proved too (`len32_taggedHash`).
+* T1 / T1s / T2 (`completeness`, `spelling_independent`, `key_agreement`): `L : Lawful o G`.  NOTE
+  `Lawful (Btc.EC.ops C) G` itself is UNINHABITED (raw integer pairs include junk such as `(-1, 1)`); what C01
+  proves is `Lawful (opsSub K)` — the same operations restricted to reduced valid pairs of the `n`-torsion, with
+  `lift_x` filtered to that carrier.  The `_ec` / `_secp256k1` forms transfer the conclusions to `Btc.EC.ops C`;
+  the `_raw` forms have NO `opsSub` left in the statement and need the explicit cofactor-one hypothesis `hcof`
+  (restricted and unrestricted `lift_x` agree); for secp256k1 the discriminant condition and the primality of
+  `p`, `n` are proved, `Secp256k1CofactorOne` is the one named assumption that remains.
+* The output key is committed to as an INTEGER: `check_output_pubkey` compares `int.from_bytes(q)`, so `00 ‖ q`
+  verifies like `q` (open known finding `taproot.check_output_pubkey.zero_padded_key_accepted`).  "Commits to
+  exactly its key" therefore means: among keys of one length at most one verifies (`output_key_unique`), and keys
+  with one big-endian value verify alike (`output_key_as_integer`); the LENGTH of `q` is not committed.
 * collision resistance is NOT assumed: T3 *constructs* the collision / the tweak alias.
+* `leafHash` is specified for a version byte `v < 256` (every caller masks); the public `leaf_hash(v, …)` of
+  btclib raises `OverflowError` outside `0..255`, which is outside this model (C19's domain).
 -/
 namespace Props.C12
 open Btc Btc.Taproot Gen.Taproot
@@ -90,7 +107,7 @@ theorem refuses_tweak_out_of_range (H : TagHash) (pk h : Bytes) :
 
 theorem check_refuses_tweak_out_of_range {H : TagHash} (q s : Bytes) (c0 : UInt8) (xb path : Bytes) (m : Nat)
     (hx : xb.length = 32) (hp : path.length = 32 * m) (hm : m ≤ 128)
-    (hr : o.n ≤ (ofBE (H TAG_TWEAK (xb ++ foldPath H (leafHash H (c0.toNat &&& 254) s) path m)) : Nat)) :
+    (hr : o.n ≤ (ofBE (H TAG_TWEAK (xb ++ foldPath H (leafHash H (c0.toNat &&& LEAF_MASK) s) path m)) : Nat)) :
     checkOutputPubkey o H q s (c0 :: (xb ++ path)) = .error .tweak :=
   check_tweak_refused q s c0 xb path m hx hp hm hr
 
@@ -110,14 +127,14 @@ theorem refuses_unliftable_key {H : TagHash} (xb : Bytes) (hl : o.liftX (ofBE xb
     explicit preimages with one tagged-hash digest — or a second (internal key ‖ root) preimage whose
     tweak lands on the same output key.  So "altered in any bit no longer verifies" holds up to those
     two events, stated exactly. -/
-theorem soundness (L : Lawful o G) {H : TagHash} (h32 : Len32 H) (tree : Tree) (xb : Bytes)
+theorem soundness (hev : LiftEven o) {H : TagHash} (h32 : Len32 H) (tree : Tree) (xb : Bytes)
     (hxb : xb.length = 32) (htree : ∀ s ∈ tree.scripts, s.length < 2 ^ 64)
     (q : Bytes) (par : Nat) (s' c' : Bytes) (hs' : s'.length < 2 ^ 64)
     (hq : tweakedPubkey o H (2 :: xb) (root H tree) = .ok (q, par))
     (hc : checkOutputPubkey o H q s' c' = .ok true) :
     (∃ lf ∈ leaves H tree, s' = lf.1.2 ∧ c' = controlBlock par lf.1.1 xb lf.2) ∨
     Collision H ∨ TweakAlias o H xb (root H tree) q :=
-  soundness_aux L h32 tree xb hxb htree q par s' c' hs' hq hc
+  soundness_aux hev h32 tree xb hxb htree q par s' c' hs' hq hc
 
 /-- T1v/T3v (`check_output_pubkey` is leaf-version-agnostic): for EVERY leaf version `v` (any integer the
     caller writes; the library commits to `v & 0xFE`, so all 128 even bytes — 0xC0, 0xC2, 0x50, … — arise):
@@ -141,14 +158,14 @@ theorem every_leaf_version (L : Lawful o G) (hp : o.p ≤ 2 ^ 256) {H : TagHash}
   constructor
   · obtain ⟨s1, c1, h1, h2⟩ :=
       (completeness L hp h32 sec (.leaf v s) P t (Nat.zero_le _) hP ht hQ).2 0 (by rw [leaves_leaf]; simp)
-    obtain ⟨e1, par, hpar, e2⟩ := iss_leaf sec v s s1 c1 h1
+    obtain ⟨e1, par, hpar, e2⟩ := iss_leaf sec (by rintro rfl; unfold pointFromOctets at hP; cases hP) v s s1 c1 h1
     subst e1 e2
     exact ⟨par, hpar, h1, h2⟩
   · intro s' c' hs' hc
     obtain ⟨-, -, hxl⟩ := pointFromOctets_spec L sec P hP
     have hq : tweakedPubkey o H (2 :: xOnly sec) (root H (.leaf v s)) = .ok (outKey o (tweakPoint o P t)) := by
       rw [spelling_independent L sec _ P t hP ht hQ]; exact tweakedPubkey_ok sec _ P t hP ht
-    rcases soundness L h32 (.leaf v s) (xOnly sec) hxl (by simp [Tree.scripts]; exact hs) _ _ s' c' hs' hq hc with
+    rcases soundness (liftEven_of_lawful L) h32 (.leaf v s) (xOnly sec) hxl (by simp [Tree.scripts]; exact hs) _ _ s' c' hs' hq hc with
       ⟨lf, hlf, e1, e2⟩ | h | h
     · left
       rw [leaves_leaf, List.mem_singleton] at hlf
@@ -156,6 +173,44 @@ theorem every_leaf_version (L : Lawful o G) (hp : o.p ≤ 2 ^ 256) {H : TagHash}
       exact ⟨e1, e2⟩
     · exact Or.inr (Or.inl h)
     · exact Or.inr (Or.inr h)
+
+/-- T3v, soundness half alone, under `LiftEven` only (so it holds of the executed arithmetic): against the output
+    key committed to the x-only key `xb` and the single leaf `(v, s)`, whatever `(s', c')` verifies carries
+    exactly the version bits `v & 0xFE`, the committed parity, `xb`, the empty path and the script `s` — for
+    EVERY `v` — or a collision / tweak alias is exhibited. -/
+theorem every_leaf_version_sound (hev : LiftEven o) {H : TagHash} (h32 : Len32 H) (xb : Bytes) (hxb : xb.length = 32)
+    (v : Nat) (s : Bytes) (hs : s.length < 2 ^ 64) (q : Bytes) (par : Nat)
+    (hq : tweakedPubkey o H (2 :: xb) (root H (.leaf v s)) = .ok (q, par))
+    (s' c' : Bytes) (hs' : s'.length < 2 ^ 64) (hc : checkOutputPubkey o H q s' c' = .ok true) :
+    (s' = s ∧ c' = controlBlock par (v &&& LEAF_MASK) xb []) ∨ Collision H ∨ TweakAlias o H xb (root H (.leaf v s)) q := by
+  rcases soundness hev h32 (.leaf v s) xb hxb (by simp [Tree.scripts]; exact hs) q par s' c' hs' hq hc with
+    ⟨lf, hlf, e1, e2⟩ | h | h
+  · left
+    rw [leaves_leaf, List.mem_singleton] at hlf
+    subst hlf
+    exact ⟨e1, e2⟩
+  · exact Or.inr (Or.inl h)
+  · exact Or.inr (Or.inr h)
+
+/-- T3k (what "commits to exactly its key" means): one (script, control block) verifies against at most one
+    output key of a given length — so every single-BIT alteration of a 32-byte key that verifies is rejected —
+    while keys with one big-endian value (`q`, `00 ‖ q`, …) verify alike: the key is committed to as an integer,
+    its length is not (known finding `taproot.check_output_pubkey.zero_padded_key_accepted`). -/
+theorem output_key_committed_as_integer (o : GroupOps α) (H : TagHash) (q q' s c : Bytes) :
+    (q'.length = q.length → checkOutputPubkey o H q s c = .ok true → q' ≠ q →
+      checkOutputPubkey o H q' s c ≠ .ok true) ∧
+    (ofBE q' = ofBE q → checkOutputPubkey o H q' s c = checkOutputPubkey o H q s c) :=
+  ⟨fun hl h hne h' => hne (output_key_unique q q' s c hl h h'), output_key_as_integer q q' s c⟩
+
+/-- T1n (no internal key): `None` and `b""` are both BIP341's unspendable point `02 ‖ NUMS_X`, for the output key
+    and for the control block (so T1 / T3 apply with `sec := numsSec`); with no tree either, the call is refused. -/
+theorem nums_fallback (o : GroupOps α) (H : TagHash) (t : Tree) (i : Int) :
+    outputPubkey o H none (some t) = outputPubkey o H (some numsSec) (some t) ∧
+    outputPubkey o H (some []) (some t) = outputPubkey o H (some numsSec) (some t) ∧
+    inputScriptSig o H none t i = inputScriptSig o H (some numsSec) t i ∧
+    inputScriptSig o H (some []) t i = inputScriptSig o H (some numsSec) t i ∧
+    outputPubkey o H none none = .error .missing ∧ outputPubkey o H (some []) none = .error .missing :=
+  nums_fallback_aux o H t i
 
 /-- T3m (merkle soundness alone): a (version, script, path) that folds to the root of a tree is one of
     the tree's own leaves with its own path, or a collision is in hand. -/
@@ -309,6 +364,123 @@ theorem key_agreement_secp256k1 {H : TagHash}
           outKey (EC.ops secp256k1) ((EC.ops secp256k1).mul d2 secp256k1.G) =
             outKey (EC.ops secp256k1) (tweakPoint (EC.ops secp256k1) P'.1 t))) :=
   Btc.E2E.key_agreement_secp256k1 d h0 h1 sec h P' hP hsame hx
+
+/-- T3 on btclib's arithmetic (`Btc.EC.ops C` on raw integer pairs, as executed), any curve over an odd field size:
+    no `Lawful`, no `CurveOk`, no primality — `lift_x` answering an even y is read off `y_even_var`. -/
+theorem soundness_ec (C : Curve) (hodd : C.p % 2 = 1) {H : TagHash} (h32 : Len32 H) (tree : Tree) (xb : Bytes)
+    (hxb : xb.length = 32) (htree : ∀ s ∈ tree.scripts, s.length < 2 ^ 64)
+    (q : Bytes) (par : ℕ) (s' c' : Bytes) (hs' : s'.length < 2 ^ 64)
+    (hq : tweakedPubkey (EC.ops C) H (2 :: xb) (root H tree) = .ok (q, par))
+    (hc : checkOutputPubkey (EC.ops C) H q s' c' = .ok true) :
+    (∃ lf ∈ leaves H tree, s' = lf.1.2 ∧ c' = controlBlock par lf.1.1 xb lf.2) ∨
+    Collision H ∨ TweakAlias (EC.ops C) H xb (root H tree) q :=
+  soundness (liftEven_ec C hodd) h32 tree xb hxb htree q par s' c' hs' hq hc
+
+/-- T3 on secp256k1 with the executed SHA-256 tagged hash: NO hypothesis about group or hash is left — exactly the
+    two functions the driver runs (`Btc.EC.ops secp256k1`, `Btc.taggedHash`). -/
+theorem soundness_secp256k1 (tree : Tree) (xb : Bytes)
+    (hxb : xb.length = 32) (htree : ∀ s ∈ tree.scripts, s.length < 2 ^ 64)
+    (q : Bytes) (par : ℕ) (s' c' : Bytes) (hs' : s'.length < 2 ^ 64)
+    (hq : tweakedPubkey (EC.ops secp256k1) taggedHash (2 :: xb) (root taggedHash tree) = .ok (q, par))
+    (hc : checkOutputPubkey (EC.ops secp256k1) taggedHash q s' c' = .ok true) :
+    (∃ lf ∈ leaves taggedHash tree, s' = lf.1.2 ∧ c' = controlBlock par lf.1.1 xb lf.2) ∨
+    Collision taggedHash ∨ TweakAlias (EC.ops secp256k1) taggedHash xb (root taggedHash tree) q :=
+  soundness liftEven_secp256k1 len32_taggedHash tree xb hxb htree q par s' c' hs' hq hc
+
+/-- T3v on secp256k1 / SHA-256: soundness for EVERY leaf version, nothing assumed -/
+theorem every_leaf_version_sound_secp256k1 (xb : Bytes) (hxb : xb.length = 32)
+    (v : ℕ) (s : Bytes) (hs : s.length < 2 ^ 64) (q : Bytes) (par : ℕ)
+    (hq : tweakedPubkey (EC.ops secp256k1) taggedHash (2 :: xb) (root taggedHash (.leaf v s)) = .ok (q, par))
+    (s' c' : Bytes) (hs' : s'.length < 2 ^ 64)
+    (hc : checkOutputPubkey (EC.ops secp256k1) taggedHash q s' c' = .ok true) :
+    (s' = s ∧ c' = controlBlock par (v &&& LEAF_MASK) xb []) ∨ Collision taggedHash ∨
+      TweakAlias (EC.ops secp256k1) taggedHash xb (root taggedHash (.leaf v s)) q :=
+  every_leaf_version_sound liftEven_secp256k1 len32_taggedHash xb hxb v s hs q par hq s' c' hs' hc
+
+/-- T1n on secp256k1: the NUMS fallback key `02 ‖ NUMS_X` IS a point (kernel-evaluated `lift_x`), so the hypothesis
+    `hP` of `completeness_secp256k1_raw` is met by `sec := numsSec`, i.e. by `internal_pubkey = None` / `b""`. -/
+theorem nums_is_a_point_secp256k1 :
+    ∃ Q, pointFromOctets (EC.ops secp256k1) numsSec = .ok Q ∧ (EC.ops secp256k1).isZero Q = false :=
+  nums_parses
+
+/-- the two facts about the executed functions that T3 needs, proved -/
+theorem executed_instance_facts : LiftEven (EC.ops secp256k1) ∧ Len32 taggedHash :=
+  ⟨liftEven_secp256k1, len32_taggedHash⟩
+
+/-- T1 over the RAW arithmetic (the key parses over `Btc.EC.ops C` itself; no `opsSub` in the statement), under the
+    explicit cofactor-one hypothesis `hcof` and `hΔ` (restricted and unrestricted `lift_x` then agree) -/
+theorem completeness_ec_raw {p : ℕ} [Fact p.Prime] {C : Curve} (K : CurveOk p C) (h34 : p % 4 = 3)
+    (hcof : ∀ g : Pt p C.toCurveGroup, C.n • g = 0) (hΔ : (curveOf p C.toCurveGroup).toAffine.Δ ≠ 0)
+    (hp : C.p ≤ 2 ^ 256) {H : TagHash} (h32 : Len32 H)
+    (sec : Bytes) (tree : Tree) (Q : Point) (t : ℤ) (hdepth : tree.depth ≤ 128)
+    (hP : pointFromOctets (EC.ops C) sec = .ok Q)
+    (ht : tapTweak (EC.ops C) H (xOnly sec) (root H tree) = .ok t)
+    (hQ : (EC.ops C).isZero (tweakPoint (EC.ops C) Q t) = false) :
+    outputPubkey (EC.ops C) H (some sec) (some tree) = .ok (outKey (EC.ops C) (tweakPoint (EC.ops C) Q t)) ∧
+    ∀ i : ℕ, i < (leaves H tree).length →
+      ∃ s c, inputScriptSig (EC.ops C) H (some sec) tree i = .ok (s, c) ∧
+        checkOutputPubkey (EC.ops C) H (outKey (EC.ops C) (tweakPoint (EC.ops C) Q t)).1 s c = .ok true :=
+  completeness_raw_cof K h34 hcof hΔ hp h32 sec tree Q t hdepth hP ht hQ
+
+/-- T2 over the RAW arithmetic, under `hcof`, `hΔ`: both tweaks over `Btc.EC.ops C` -/
+theorem key_agreement_ec_raw {p : ℕ} [Fact p.Prime] {C : Curve} (K : CurveOk p C) (h34 : p % 4 = 3)
+    (hcof : ∀ g : Pt p C.toCurveGroup, C.n • g = 0) (hΔ : (curveOf p C.toCurveGroup).toAffine.Δ ≠ 0)
+    {H : TagHash} (d : ℤ) (h0 : 0 < d) (h1 : d < C.n) (sec h : Bytes) (Q : Point)
+    (hP : pointFromOctets (EC.ops C) sec = .ok Q)
+    (hsame : (EC.ops C).eq Q ((EC.ops C).mul d C.G) = true ∨
+      (EC.ops C).eq Q ((EC.ops C).neg ((EC.ops C).mul d C.G)) = true)
+    (hx : xOnly sec = beBytes 32 ((EC.ops C).x ((EC.ops C).mul d C.G)).toNat) :
+    (∀ e, tweakedPrvkey (EC.ops C) H d h = .error e ↔ tweakedPubkey (EC.ops C) H sec h = .error e) ∧
+    (∀ d2, tweakedPrvkey (EC.ops C) H d h = .ok d2 →
+      ∃ t, tapTweak (EC.ops C) H (xOnly sec) h = .ok t ∧ 0 ≤ d2 ∧ d2 < C.n ∧
+        tweakedPubkey (EC.ops C) H sec h = .ok (outKey (EC.ops C) (tweakPoint (EC.ops C) Q t)) ∧
+        (EC.ops C).eq ((EC.ops C).mul d2 C.G) (tweakPoint (EC.ops C) Q t) = true ∧
+        ((EC.ops C).isZero (tweakPoint (EC.ops C) Q t) = false →
+          outKey (EC.ops C) ((EC.ops C).mul d2 C.G) = outKey (EC.ops C) (tweakPoint (EC.ops C) Q t))) :=
+  key_agreement_raw_cof K h34 hcof hΔ d h0 h1 sec h Q hP hsame hx
+
+/-- T1 on secp256k1 with SHA-256, RAW: the only assumption left is `Secp256k1CofactorOne` (`#E(F_p) = n`) -/
+theorem completeness_secp256k1_raw (hcof : Secp256k1CofactorOne)
+    (sec : Bytes) (tree : Tree) (Q : Point) (t : ℤ) (hdepth : tree.depth ≤ 128)
+    (hP : pointFromOctets (EC.ops secp256k1) sec = .ok Q)
+    (ht : tapTweak (EC.ops secp256k1) taggedHash (xOnly sec) (root taggedHash tree) = .ok t)
+    (hQ : (EC.ops secp256k1).isZero (tweakPoint (EC.ops secp256k1) Q t) = false) :
+    outputPubkey (EC.ops secp256k1) taggedHash (some sec) (some tree) =
+      .ok (outKey (EC.ops secp256k1) (tweakPoint (EC.ops secp256k1) Q t)) ∧
+    ∀ i : ℕ, i < (leaves taggedHash tree).length →
+      ∃ s c, inputScriptSig (EC.ops secp256k1) taggedHash (some sec) tree i = .ok (s, c) ∧
+        checkOutputPubkey (EC.ops secp256k1) taggedHash
+          (outKey (EC.ops secp256k1) (tweakPoint (EC.ops secp256k1) Q t)).1 s c = .ok true :=
+  Btc.E2E.completeness_secp256k1_raw hcof len32_taggedHash sec tree Q t hdepth hP ht hQ
+
+/-- T2 on secp256k1, RAW, under `Secp256k1CofactorOne` -/
+theorem key_agreement_secp256k1_raw (hcof : Secp256k1CofactorOne) {H : TagHash}
+    (d : ℤ) (h0 : 0 < d) (h1 : d < secp256k1.n) (sec h : Bytes) (Q : Point)
+    (hP : pointFromOctets (EC.ops secp256k1) sec = .ok Q)
+    (hsame : (EC.ops secp256k1).eq Q ((EC.ops secp256k1).mul d secp256k1.G) = true ∨
+      (EC.ops secp256k1).eq Q ((EC.ops secp256k1).neg ((EC.ops secp256k1).mul d secp256k1.G)) = true)
+    (hx : xOnly sec = beBytes 32 ((EC.ops secp256k1).x ((EC.ops secp256k1).mul d secp256k1.G)).toNat) :
+    (∀ e, tweakedPrvkey (EC.ops secp256k1) H d h = .error e ↔ tweakedPubkey (EC.ops secp256k1) H sec h = .error e) ∧
+    (∀ d2, tweakedPrvkey (EC.ops secp256k1) H d h = .ok d2 →
+      ∃ t, tapTweak (EC.ops secp256k1) H (xOnly sec) h = .ok t ∧ 0 ≤ d2 ∧ d2 < secp256k1.n ∧
+        tweakedPubkey (EC.ops secp256k1) H sec h =
+          .ok (outKey (EC.ops secp256k1) (tweakPoint (EC.ops secp256k1) Q t)) ∧
+        (EC.ops secp256k1).eq ((EC.ops secp256k1).mul d2 secp256k1.G) (tweakPoint (EC.ops secp256k1) Q t) = true ∧
+        ((EC.ops secp256k1).isZero (tweakPoint (EC.ops secp256k1) Q t) = false →
+          outKey (EC.ops secp256k1) ((EC.ops secp256k1).mul d2 secp256k1.G) =
+            outKey (EC.ops secp256k1) (tweakPoint (EC.ops secp256k1) Q t))) :=
+  Btc.E2E.key_agreement_secp256k1_raw hcof d h0 h1 sec h Q hP hsame hx
+
+-- non-vacuity of T3 on the executed arithmetic: the toy curve `y² = x³ + 7` over `F₄₃`, internal key x = 21, the
+-- three-leaf tree, the control block `input_script_sig` builds for leaf 2: every hypothesis of `soundness_ec` holds
+example : (∃ lf ∈ leaves toyH0 toyTree, ([0x52] : Bytes) = lf.1.2 ∧
+      (match inputScriptSig (EC.ops toyC) toyH0 (some (2 :: beBytes 32 21)) toyTree 2 with
+        | .ok (_, c) => c | .error _ => []) =
+        controlBlock (outKey (EC.ops toyC) (tweakPoint (EC.ops toyC) (21, 18) 0)).2 lf.1.1 (beBytes 32 21) lf.2) ∨
+    Collision toyH0 ∨ TweakAlias (EC.ops toyC) toyH0 (beBytes 32 21) (root toyH0 toyTree)
+      (outKey (EC.ops toyC) (tweakPoint (EC.ops toyC) (21, 18) 0)).1 :=
+  soundness_ec toyC (by decide) (fun _ _ => by simp [toyH0]) toyTree (beBytes 32 21) (by decide)
+    (by decide) _ _ [0x52] _ (by decide) (by decide +kernel) (by decide +kernel)
 
 -- non-vacuity on `y² = x³ + 7` over `F₄₃` (`CurveOk` PROVED, nothing assumed): internal key `02 ‖ 21` (`4•G = (21, 18)`),
 -- three-leaf tree; every hypothesis of T1 is discharged and its verdict is about btclib's arithmetic on raw pairs
